@@ -50,8 +50,9 @@ sexp json_read_number (sexp ctx, sexp self, sexp in) {
   }
   for ( ; ch != EOF && isdigit(ch); ch = sexp_read_char(ctx, in)) {
     res = res * 10 + ch - '0';
-    /* keep integers exact while they fit a fixnum (a double loses bits above 2^53) */
-    if (ires > (SEXP_MAX_FIXNUM - (ch - '0')) / 10)
+    /* keep integers exact while they fit a fixnum (a double loses bits above 2^53);
+       the most negative fixnum is one further from zero than the most positive */
+    if (ires > (SEXP_MAX_FIXNUM + (sign < 0) - (ch - '0')) / 10)
       inexactp = 1;
     else
       ires = ires * 10 + (ch - '0');
